@@ -92,6 +92,8 @@ def parse_spec(path):
                         h['replace'] = [x for x in v.split(',') if x]
                     elif k in ('timeout', 'mem', 'unwind'):
                         h[k] = int(v)
+                    elif k == 'tdefine':
+                        h.setdefault('tdefines', []).append(v)
                     elif k == 'define':
                         h['defines'].append(v)
                     elif k == 'flags':
